@@ -50,10 +50,13 @@ type overlaySpec struct {
 		Property string `json:"property"`
 		Rule     string `json:"rule"`
 	} `json:"expect"`
+	// Clean lists properties whose checks must stay silent under this (behaviour-preserving) variant.
+	Clean []string `json:"clean"`
 	Edits []struct {
 		File string `json:"file"`
 		Old  string `json:"old"`
 		New  string `json:"new"`
+		All  bool   `json:"all"` // replace every occurrence (renames)
 	} `json:"edits"`
 	Note string `json:"note"`
 }
@@ -106,6 +109,13 @@ func readOverlay(path, repo string) (map[string][]byte, *overlaySpec, error) {
 			if err != nil {
 				return nil, &spec, fmt.Errorf("overlay %s: %w", spec.Name, err)
 			}
+		}
+		if e.All {
+			if strings.Count(string(src), e.Old) < 1 {
+				return nil, &spec, errOverlayStale{spec.Name, e.File}
+			}
+			ov[full] = []byte(strings.ReplaceAll(string(src), e.Old, e.New))
+			continue
 		}
 		if strings.Count(string(src), e.Old) != 1 {
 			return nil, &spec, errOverlayStale{spec.Name, e.File}
